@@ -15,6 +15,7 @@ Classes and functions to read and represent cutplace interface definitions.
 #
 # You should have received a copy of the GNU Lesser General Public License
 # along with this program.  If not, see <http://www.gnu.org/licenses/>.
+import copy
 import glob
 import importlib.machinery
 import importlib.util
@@ -57,6 +58,7 @@ class Cid(object):
         self._field_formats = []
         self._field_name_to_format_map = {}
         self._field_name_to_index_map = {}
+        self._field_name_to_example_location_map = {}
         self._check_names = []
         # TODO: Change to tuple(check_name, check).
         self._check_name_to_check_map = {}
@@ -305,6 +307,18 @@ class Cid(object):
         self.data_format.validate()
         if len(self.field_names) == 0:
             raise errors.InterfaceError("fields must be specified", self._location)
+        # Validate the examples again because data format properties set after a field was declared might
+        # have changed what the field accepts, for example the decimal separator or the allowed characters.
+        for field_format in self.field_formats:
+            example_location = self._field_name_to_example_location_map.get(field_format.field_name)
+            if example_location is not None:
+                try:
+                    field_format.validated(field_format.example)
+                except errors.FieldValueError as error:
+                    raise errors.InterfaceError(
+                        "cannot validate example for field %s: %s" % (_compat.text_repr(field_format.field_name), error),
+                        example_location,
+                    )
         _verif.emit_cid("cid_done", self)
 
     def add_field_format(self, field_format):
@@ -477,13 +491,14 @@ class Cid(object):
 
         # Set and validate example in case there is one.
         if field_example != "":
+            self._location.set_cell(2)
             try:
                 field_format.example = field_example
             except errors.FieldValueError as error:
-                self._location.set_cell(2)
                 raise errors.InterfaceError(
                     "cannot validate example for field %s: %s" % (_compat.text_repr(field_name), error), self._location
                 )
+            self._field_name_to_example_location_map[field_name] = copy.copy(self._location)
 
         self._location.set_cell(1)
 
